@@ -8,6 +8,7 @@ from .facts import const_int, facts_of
 from .flow import Arr, ArrSlice, Bool, Bytes, Num, Opaque, Tup, c_not, cond_atoms, conjuncts, show_cond
 from .lin import Lin, show_lin
 from .model import AnalysisError, call_name, dotted, self_attr, unparse, walk_no_nested
+from .model import comes_before, is_inside
 from .rules_arith import (FactBox, agg, fact_strs, group_by_node, hash_site, on_path, seed_is_row, src,
                           table_params, walk_kernel)
 
@@ -624,7 +625,7 @@ def rule_maxcount(ctx):
     depth_p = F.param_for(k, "depth")
     rets = [e for e in w.events if e.kind == "ret" and not e.implicit]
     loops0 = [n for n in walk_no_nested(k.node) if isinstance(n, (ast.For, ast.While))]
-    early = [r for r in rets if loops0 and not (r.line > loops0[0].end_lineno and not r.loops)]
+    early = [r for r in rets if loops0 and not (comes_before(k.node, loops0[0], r.node) and not r.loops)]
     ctx.ob("scan-all", k, early[0].node if early else k.node, "%s: returns only after the row loop" % k.name,
            "the count is reported only after every row was examined", not early,
            "" if not early else "`%s` answers before/inside the loop over the rows" % src(k, early[0].node, 50))
